@@ -1,5 +1,5 @@
 (* C16 - the System Z ranking object. *)
-From InfOCF Require Import Core Tol SysZ Kz Form Model Spec Diag Ocf ThmZocf ThmZocfExt.
+From InfOCF Require Import Core Tol SysZ Kz Form Model Spec Diag Ocf ThmZocf ThmZocfExt ThmZocfFacts.
 From InfOCFProps Require Import Ex.
 From InfOCF Require Import PyLib TieSolver TieZocf.
 From InfOCFGen Require Import SrcZocf.
@@ -67,6 +67,17 @@ Theorem C16_source_rank_world_lazy : forall n Pc (rk:wdict (option BinNums.Z)) w
     (forall w2, w2 <> w -> wdict_find rk' w2 = wdict_find rk w2).
 Proof. exact tie_zocf_rank_world. Qed.
 Print Assumptions C16_source_rank_world_lazy.
+
+(* facts: the object is built from the base augmented by (Bottom | not phi), in extended mode by default; every world
+   violating a fact receives the top rank, one above all finite ranks *)
+Theorem C16_fact_violating_worlds_get_top_rank : forall n D facts R w phi,
+  zocf_partition n None facts D = Some R -> In phi facts -> eval w phi = false ->
+  exists fin Cinf0, R = fin ++ [Cinf0] /\ zrank_of R w = S (length fin) /\ (forall u, kz world fin u <= length fin).
+Proof. exact zocf_fact_violation_top_rank. Qed.
+Print Assumptions C16_fact_violating_worlds_get_top_rank.
+Example birds_fact_top : (match zocf_partition 4 None [FNot (v 1)] birds with
+   Some P => (length P, map (zrank_of P) (filter (fun w => eval w (v 1)) (worlds 4))) | None => (0, []) end) = (2, [2;2;2;2;2;2;2;2]).
+Proof. vm_compute. reflexivity. Qed.
 
 Example birds_object : (match zocf_partition 4 None [] birds with Some P => map snd (zrun 4 P (cache0 4) [ORank 5; OFrank (v 1); OAccept q_wp]) | None => [] end)
    = [VNat 2; VOpt (Some 1); VBool false]
